@@ -1,0 +1,29 @@
+//go:build verif
+
+package message
+
+// VerifEntry is one (filter, subscriber) pair stored in the trie.
+type VerifEntry struct {
+	Ssid Ssid
+	ID   string
+	Type SubscriberType
+}
+
+// VerifDump returns the number of live trie nodes (root included) and every
+// stored (ssid, subscriber) pair.
+func (t *Trie) VerifDump() (nodes int, entries []VerifEntry) {
+	t.RLock()
+	defer t.RUnlock()
+	var walk func(n *node, path Ssid)
+	walk = func(n *node, path Ssid) {
+		nodes++
+		for _, s := range n.subs {
+			entries = append(entries, VerifEntry{Ssid: append(Ssid(nil), path...), ID: s.ID(), Type: s.Type()})
+		}
+		for w, c := range n.children {
+			walk(c, append(append(Ssid(nil), path...), w))
+		}
+	}
+	walk(t.root, nil)
+	return
+}
